@@ -26,7 +26,7 @@ def gen_cases(tier, seed):
                 for fr in ["0", "1/10", "60"]:
                     for fa in ["0", "1/20", "30"]:
                         yield {"k": "losses", "a": [soc, cap, rel, fr, fa]}
-    yield from runcheck.gen_cases_for(PID, tier, seed, per_strategy_quick=40, per_strategy_thorough=1200)
+    yield from runcheck.gen_cases_for(PID, tier, seed, per_strategy_quick=250, per_strategy_thorough=2500)
 
 
 def eval_losses(case):
